@@ -172,7 +172,7 @@ func verifH_C17_dbs() {
 			err := sess.ExecQuery("UPDATE t SET a = " + string([]byte{d}))
 			switch {
 			case cur == "" || !dbs[cur].hasT:
-				verifAssert(err != nil, "update-needs-database-and-table")
+				verifAssert(err != nil, "insert-needs-database-and-table")
 			default:
 				verifAssert(err == nil, "update-ok")
 				for j := range dbs[cur].rows {
@@ -185,7 +185,7 @@ func verifH_C17_dbs() {
 			err := sess.ExecQuery("DELETE FROM t WHERE a = " + string([]byte{d}))
 			switch {
 			case cur == "" || !dbs[cur].hasT:
-				verifAssert(err != nil, "delete-needs-database-and-table")
+				verifAssert(err != nil, "insert-needs-database-and-table")
 			default:
 				verifAssert(err == nil, "delete-ok")
 				var keep []int64
